@@ -68,7 +68,7 @@ struct rec {
 	char crash_prop[8];	/* property a crash of this run would contradict ("" = the selected one) */
 	int af_fired;		/* an injected allocation failure has happened */
 	/* side channel for engines that report values to the driver */
-	char out[8192];
+	char out[16384];
 };
 extern struct rec * R;
 
